@@ -1026,9 +1026,12 @@ impl Validator for SimpleValidator {
             estimate_feerate_per_kw(total_fee, weight)
         };
 
+        let htlc_amount_msat = htlc_amount_sat
+            .checked_mul(1000)
+            .ok_or_else(|| policy_error("policy-commitment-other", "HTLC amount overflow"))?;
         let htlc = HTLCOutputInCommitment {
             offered,
-            amount_msat: htlc_amount_sat * 1000,
+            amount_msat: htlc_amount_msat,
             cltv_expiry,
             payment_hash: PaymentHash([0; 32]), // isn't used
             transaction_output_index: Some(transaction_output_index),
